@@ -33,6 +33,10 @@ def run(ctx: Ctx) -> None:
     rep.rule("C07.R6", "the cache wrapper answers path queries from the wrapped store every time (another process may have re-committed the path)")
     from .c12 import passthrough_rules
     passthrough_rules(ctx, "C07.R6", only=["sync_paths", "fetch_paths"])
+    rep.rule("C07.R7", "typestate exploration: every interleaving of two processes over the extracted effect sequences (store_blob / sync_paths / store creation)")
+    n7 = S.interleaving_sweep(ctx, v, "C07.R7")
+    rep.analysed["interleaved_states_explored"] = n7
+    rep.floor("C07.R7", n7, 100)
     f = ctx.prog.funcs.get("dds._api._store")
     if f is not None:
         rep.info("C07.R1", f.qname, "delayed creation of the default store is a check-then-set on a module global inside one process (listed, not judged: the property is about processes)", f.loc())
